@@ -40,13 +40,15 @@ CHECKS = {
    note="Trusted: Coq kernel + Coq.Reals axioms; extraction; glue; hooks. Averaging over runs = two-branch identity; RNG uniformity assumed.",
    technique="Coq proof over R + extraction-based correspondence + direct reduced-density check on the implementation"),
  "C05": dict(
-   level=("proof", "Coq theorems (axiom-free): an independent reader of the emitted OpenQASM subset recovers from emit(n, ops) exactly n and ops "
+   level=("proof", "Coq theorems: an independent reader of the emitted OpenQASM subset recovers from emit(n, ops) exactly n and ops "
           "for every n and op list whose angle texts are fixed-point literals (round trip: nothing lost, duplicated or reordered); the log equals "
           "the list of operations that succeeded, in order, for every history; every logged operand is below the register size and cx operands "
-          "are distinct in every history the evaluator can produce. Tied by generated programs: emitted text equals the model's byte for byte; the "
+          "are distinct in every history the evaluator can produce; and (over the reals, using the standard library's real-number axioms) replaying "
+          "exactly the logged operations with the same draws on a register declared up front yields the simulator record the lazily allocating run "
+          "ends in, for every scripted history. Tied by generated programs: emitted text equals the model's byte for byte; the "
           "implementation's own text is parsed by the extracted reader and replayed by the extracted simulator with the recorded outcomes and "
           "compared with the simulator's final amplitudes; the CLI's .qasm file equals --emit-qasm output.", "DESIGN.md §6 C05"),
-   note="Trusted: Coq kernel; extraction; glue; hooks. Lazy-allocation commutation is checked by replay on generated programs, not yet proved.",
+   note="Trusted: Coq kernel; extraction; glue; hooks. Axioms of the replay theorem: ClassicalDedekindReals.sig_forall_dec, sig_not_dec, functional_extensionality_dep (Coq.Reals); the others are axiom-free. binary64 rounding is observed, not modelled.",
    technique="Coq proof (parser/printer round trip, history invariant) + extraction-based replay of the implementation's own output"),
  "C06": dict(
    level=("proof", "Coq theorems (axiom-free) on the evaluator/simulator flag model for every op history: both flag vectors agree, a gate/cx/"
